@@ -17,9 +17,9 @@ the Go code and a concrete instance.
    executing that stream on the VM agrees with the specification;
 5. `compileExpr_pure`, `pure_labels_fresh`, `pure_ok`, `pure_fatal`, `compiled_pure_correct` —
    the same for expressions with `&&`, `||` and `if`/`else` (jumps and labels);
-6. `compileStmts_frag`, `stmts_correct`, `compiled_stmts_correct`, `mangling_collision` —
-   `let`, assignment, compound assignment, `if` statements and `while`, under the hypothesis that no identifier
-   ends in a digit (without it the statement is false: finding V26);
+6. `compileStmts_frag`, `mangled_names_injective`, `stmts_correct`, `compiled_stmts_correct` —
+   `let`, assignment, compound assignment, `if` statements and `while`; no hypothesis on the
+   identifiers: with the `.`-separated mangling (fix of finding V26) names are injective;
 7. `compileFn_frag`, `fn_slots_fit`, `fn_body_correct`, `fn_run` — a whole parameterless function whose body
    is such a statement block: what `compileFn` emits, that its slots fit the frame reserved by
    `AddMempointer`, and that running it from its first instruction returns to the caller having
@@ -483,7 +483,7 @@ end V26Witness
 /-- **Statements on the VM.** `StRel`: level by level the specification's scopes and the
 compiler's scopes bind the same (tracked) identifiers, each mangled name's slot is a legal cell
 holding the specification's value, live names are pairwise distinct and below the current
-counters. `Good`: tracked identifiers have no trailing digit; `σ` is injective on the name set `N`
+counters. `Good`: `σ` is injective on the name set `N`
 and every name of `N` has a cell inside the memory limit. If the code of `ss` is `Placed` at `ip`
 and the relation holds, then (`SimS`): when the specification completes `ss`, only its scopes
 changed, and the VM — through all loop iterations — arrives at the end of the code with its
@@ -662,8 +662,7 @@ theorem fn_slots_fit (T : List String) (cs : CState) (fd : FnDef) (stmts : List 
 /-- **A whole function on the VM.** The VM is about to execute instruction 0 of the function
 (`relocateLabels` and `renameVariables` applied to `fnCode`), with a non-negative memory
 pointer and room for the frame; the specification starts the body in a fresh activation
-(`scopes = [[]]`); identifiers have no trailing digit and are not bound in the enclosing compile
-scopes. Then (`SimFn`): if the specification completes the body, the VM executes prologue, body
+(`scopes = [[]]`); the identifiers of the body are not bound in the enclosing compile scopes. Then (`SimFn`): if the specification completes the body, the VM executes prologue, body
 (with all its jumps) and epilogue and returns to the caller's frame with operand stack, memory
 pointer, heap, output, globals and handlers as at the call; a fatal error of the specification is
 the VM's fatal interrupt; the fragment produces no other outcome (`unsupported`/`timeout` of the
@@ -745,7 +744,7 @@ prologue, loop and epilogue and returns (no frames left) with `mp = 0` and an em
 example : ∃ k s', execN codeF {} k vmF = .next s' ∧ s'.calls = [] ∧ s'.mp = 0 ∧ s'.stack = [] := by
   obtain ⟨fuel, hfuel⟩ : ∃ n : Nat, n = 20 := ⟨20, rfl⟩
   have h := fn_body_correct { prog := [] } codeF {} TL fuel csF fdL loopEx relF {} vmF "@main.main" []
-    (by decide +kernel) (by decide +kernel) (by decide +kernel) (by decide +kernel) (by decide +kernel)
+    (by decide +kernel) (by decide +kernel) (by decide +kernel) (by decide +kernel)
     (by decide +kernel) relocate_fnCode rfl (by simp [findCode, codeF]) (by decide) (by decide +kernel) rfl rfl
   subst hfuel
   obtain ⟨hok, _⟩ := spec_facts
@@ -761,7 +760,7 @@ example : ∃ K, ∀ quantum, K ≤ quantum → ∀ vfuel, ∃ s', run codeF {} 
     s'.st = vmF.st ∧ s'.mp = 0 ∧ s'.stack = [] := by
   obtain ⟨fuel, hfuel⟩ : ∃ n : Nat, n = 20 := ⟨20, rfl⟩
   have h := fn_run { prog := [] } codeF {} TL fuel csF fdL loopEx relF {} vmF "@main.main"
-    (by decide +kernel) (by decide +kernel) (by decide +kernel) (by decide +kernel) (by decide +kernel)
+    (by decide +kernel) (by decide +kernel) (by decide +kernel) (by decide +kernel)
     (by decide +kernel) relocate_fnCode rfl (by simp [findCode, codeF]) (by decide) (by decide +kernel)
     (by decide) (by decide) rfl rfl
   subst hfuel
